@@ -99,11 +99,41 @@ def rule_no_mut_view(ctx, rule="C16/no-mut-view"):
               "Buffer.inner is mutably accessed in %s" % offenders)
     ctx.floor(R, "mutable accesses of Buffer.inner", n, 3)
     # write_all only appends
-    b = ctx.body(R, "mem_writer::Buffer::write_all")
-    if b is not None:
-        calls = [CalleeView(t["callee"]).short for _, t in b.calls()]
-        ctx.check(calls == ["std::vec::Vec::extend_from_slice"], R, "write_all-appends", b.where(0), "write_all is Vec::extend_from_slice",
-                  "write_all does %s" % calls, nontrivial=False)
+    write_all_only_appends(ctx, R, "write_all-appends")
+
+
+BUFFER_READS = ("std::vec::Vec::len", "std::vec::Vec::capacity", "std::vec::Vec::is_empty", "mem_writer::Buffer::position", "mem_writer::Buffer::len", "mem_writer::Buffer::is_empty")
+
+
+def write_all_only_appends(ctx, R, key):
+    """write_all changes the image by one Vec::extend_from_slice(self.inner, <caller's bytes>) and in no other way: every other call
+    that is handed (part of) self is one of the read-only queries, and nothing is stored through self directly"""
+    from engine.origin import Origin, strip, core
+    wb = ctx.body(R, "mem_writer::Buffer::write_all")
+    if wb is None:
+        return
+    ow = Origin(wb)
+
+    def self_rooted(e):
+        e = strip(e)
+        while isinstance(e, tuple) and e and e[0] in ("field", "deref", "ref"):
+            e = strip(e[1])
+        return e == ("param", 1)
+    appends, others = [], []
+    for bi, t in wb.calls():
+        cv = CalleeView(t["callee"])
+        a = ow.call_args(bi)
+        if not any(self_rooted(x) for x in a) or cv.short in BUFFER_READS:
+            continue
+        if cv.short == "std::vec::Vec::extend_from_slice" and strip(a[0]) == ("field", ("param", 1), "inner") and core(a[1]) == ("param", 2):
+            appends.append(bi)
+        else:
+            others.append("%s (%s)" % (cv.short, wb.where(bi)))
+    stores = [wb.where(bi, si) for bi, blk in enumerate(wb.blocks) for si, st in enumerate(blk["stmts"])
+              if st["k"] == "assign" and st["p"]["proj"] and st["p"]["proj"][0]["k"] == "deref" and st["p"]["l"] == 1]
+    ctx.check(len(appends) == 1 and not others and not stores, R, key, wb.where(0),
+              "write_all changes the image by appending the caller's bytes at position() and in no other way",
+              "write_all does not simply append the caller's bytes at position(): %d plain append(s), other changes to the image: %s" % (len(appends), others + stores), nontrivial=False)
 
 
 def rule_append_law(ctx, R="C16/append-law"):
